@@ -777,7 +777,7 @@ pub fn purity_proc(ctx: &GenCtx, rng: &mut Rng, _run: u64) -> Plan {
         plan.ops.push(Op::Sign { proc: k, msg: Msg { len: rng.below(40) as usize, cseed: rng.next_u64() }, api: *rng.pick(&[Api::Fn, Api::Obj]), cb: Cb::Accept, aux: None });
         if rng.chance(1, 4) {
             let o = *rng.pick(&observed);
-            plan.ops.push(Op::Recheck { op_ref: o, ctx: *rng.pick(&[Context::Again, Context::OtherApi, Context::WithAux]) });
+            plan.ops.push(Op::Recheck { op_ref: o, ctx: *rng.pick(&[Context::Again, Context::OtherApi, Context::WithAux, Context::NoAux]) });
         }
         if rng.chance(1, 50) {
             observed.push(plan.ops.len());
